@@ -1452,8 +1452,14 @@ impl Stdfs {
     /// ```
     pub fn remove_all<T: AsRef<Path>>(path: T) -> RvResult<()> {
         let path = Stdfs::abs(path)?;
-        if Stdfs::exists(&path) {
-            fs::remove_dir_all(path)?;
+
+        // Link exclusion i.e. look at the path itself, files and links are simply removed
+        if let Ok(meta) = fs::symlink_metadata(&path) {
+            if meta.is_dir() {
+                fs::remove_dir_all(path)?;
+            } else {
+                fs::remove_file(path)?;
+            }
         }
         Ok(())
     }
